@@ -1,5 +1,6 @@
 """C17 - a rejected call changes nothing."""
 import copy
+import os
 import pickle
 
 import numpy as np
@@ -344,6 +345,9 @@ def reject_call(mab, kind, payload, cfg):
     raise ValueError(kind)
 
 
+STREAM_MAY_MOVE = ("q_wrong_columns",)
+
+
 def snap(objs):
     try:
         return pickle.dumps(objs, protocol=4)
@@ -393,6 +397,14 @@ def evaluate(plan, ctx):
                                     bucket="state_changed:%s:%s" % (kind, q[0]))
             if streams.positions(mab) != pos_before:
                 ev.add("rejected_call_consumed_randomness")
+                ev.add("consumed_randomness:%s" % kind)
+                # "exactly as it was" includes the position of the random streams: every later randomised answer depends
+                # on it.  The one class for which the position may move is a prediction rejected for its column count -
+                # a shape error from inside *prediction*, which the property does not list (it lists shape errors from
+                # inside training) and whose only effect, like that of any prediction (C10), is on the streams.
+                if kind not in STREAM_MAY_MOVE:
+                    raise Violation("stream_advanced", "step %d: rejected %s (%s) advanced a random stream of the bandit"
+                                    % (i, kind, type(exc).__name__), bucket="stream_advanced:" + kind)
             twins.append((i, kind, type(exc).__name__, before))
             try:
                 for (_, _, _, t) in twins:      # every live copy continues from the bandit's stream positions
